@@ -278,7 +278,7 @@ structure WF (rb : RB) : Prop where
   size : 0 ≤ rb.lines ∧ 0 < rb.cols
   rows : ∀ l, 0 ≤ l → l < rb.lines → RowWF rb.cols (rb.cells l)
   maskLB : ∀ l c, -1 ≤ (rb.cell l c).maskdepth
-  maskUB : ∀ l c, (rb.cell l c).maskdepth ≤ rb.depth
+  maskUB : ∀ l c, 0 ≤ l → l < rb.lines → 0 ≤ c → c < rb.cols → (rb.cell l c).maskdepth ≤ rb.depth
   depth : rb.depth = rb.stack.length
   clip : ClipOK rb.lines rb.cols rb.clip
   frames : ∀ f, f ∈ rb.stack → f.penOnly = false → ClipOK rb.lines rb.cols f.clip
@@ -378,7 +378,7 @@ theorem WF.transfer {rb rb' : RB} (wf : WF rb) (haux : rb'.aux = rb.aux)
   · rw [e1, e2]; exact wf.size
   · intro l a b; rw [e2]; exact hrows l a (by omega)
   · intro l c; rw [hmd]; exact wf.maskLB l c
-  · intro l c; rw [hmd, e3]; exact wf.maskUB l c
+  · intro l c a b x y; rw [hmd, e3]; exact wf.maskUB l c a (by omega) x (by omega)
   · rw [e3, e4]; exact wf.depth
   · rw [e1, e2, e5]; exact wf.clip
   · rw [e1, e2, e4]; exact wf.frames
